@@ -165,7 +165,7 @@ Section ComposeN.
     destruct (p_reinterpret_n_lay szU n x) as (El & Eb & _). fold cx in El, Eb.
     destruct (p_view cx) as [l' b'] eqn:Ecx. cbn [lay base] in El, Eb. subst l'.
     rewrite is_flattable_app.
-    2:{ unfold l_scale. rewrite map_length. unfold v_rank in H. lia. }
+    2:{ unfold ProjectC12Based.l_scale_b. rewrite map_length. unfold v_rank in H. lia. }
     destruct (p_view x) as [l b] eqn:E. cbn [lay] in *.
     eapply is_flattable_scale; eassumption.
   Qed.
